@@ -45,4 +45,11 @@ def newEndpoint (ip : List Char) (port : Int) (ref : List Char) : EndpointOut :=
 /-- `ann[key]` on a possibly nil Go map: the zero value when the key is absent -/
 def mapGet (m : Option (List (List Char × List Char))) (k : List Char) : List Char := ((m.getD []).lookup k).getD []
 
+/-- `api.ServicePort` as `FindServicePort` reads it: name, `TargetPort.String()`, port number -/
+structure SvcPortFull where
+  Name : List Char
+  TargetPortString : List Char
+  Port : Int
+deriving DecidableEq, Repr
+
 end HapVerif.C03V
